@@ -45,12 +45,15 @@ ClosedForms == ~done \/ \A x \in Days :
     /\ Crossed("q", 0, d0, x) = QuarterIdx(x) - QuarterIdx(d0)
     /\ Crossed("y", 0, d0, x) = YearOf(x) - YearOf(d0)
     /\ \A p \in WeekPhases : Crossed("w", p, d0, x) = (x + 6 - p) \div 7 - (d0 + 6 - p) \div 7
-    /\ MonthNo(x) = MonthOf(x) /\ DayNo(x) = DayOf(x)
-Additive == ~done \/ \A x \in Days, y \in Days : x <= y => \A k \in Kinds :
-    /\ Crossed(k, 6, d0, y) = Crossed(k, 6, d0, x) + Crossed(k, 6, x, y)
-    /\ Crossed(k, 6, d0, x) <= Crossed(k, 6, d0, y)
+    /\ MonthNo(x) = MonthOf(x)
+    /\ \A z \in {x, x + 1} : /\ Begins("m", 0, z) <=> DayOf(z) = 1
+                             /\ Begins("q", 0, z) <=> (DayOf(z) = 1 /\ MonthOf(z) \in {1, 4, 7, 10})
+                             /\ Begins("y", 0, z) <=> (DayOf(z) = 1 /\ MonthOf(z) = 1)
+Additive == ~done \/ \A k \in Kinds :
+    LET F == [x \in Days |-> Crossed(k, 6, d0, x)] IN
+    \A x \in Days \cap {d0 + 1, d0 + 7}, y \in Days : x <= y => F[y] = F[x] + Crossed(k, 6, x, y) /\ F[x] <= F[y]
 \* exactly one beginning of a week in any seven consecutive days, of a month in the days of a month...
-OnePerUnit == ~done \/ \A x \in Days :
+OnePerUnit == ~done \/ \A x \in {d0, d0 + 5} :
     /\ \A p \in WeekPhases : Crossed("w", p, x, x + 7) = 1
     /\ Crossed("m", 0, x, x + 27) <= 1 /\ Crossed("m", 0, x, x + 31) >= 1
     /\ Crossed("q", 0, x, x + 88) <= 1 /\ Crossed("q", 0, x, x + 92) >= 1
@@ -64,8 +67,11 @@ KLaw == ~done \/ \A x \in KDays, s \in KSecs :
     /\ IsBday(c, x) => /\ \A u \in KSecs : s <= u => PDiff(KVal(c, R, <<x, u>>), v) = <<0, (u - s) * 1000>>
                        /\ PDiff(KVal(c, R, <<AdjF(c, x + 1), s>>), v) = <<1, 0>>     \* one per business day
     /\ ~IsBday(c, x) => v = KVal(c, R, <<x, 0>>) /\ (~IsBday(c, x + 1) => v = KVal(c, R, <<x + 1, s>>))
+\* (a non-business day may read as either neighbour, so two readings in one non-business stretch are only
+\*  bounded; the run as a whole must still never decrease - a relational clause of the trace specification)
 BLaw == ~done \/ \A x \in KDays : \A v \in BVals(c, R, x), w \in BVals(c, R, x + 1) :
-    /\ v <= w /\ w - v \in {0, 1}
+    /\ w - v \in {-1, 0, 1}
+    /\ (IsBday(c, x) \/ IsBday(c, x + 1)) => v <= w
     /\ (IsBday(c, x) /\ IsBday(c, x + 1)) => w = v + 1
 \* ---- today's weekday-intraday clock ---------------------------------------------------------------
 KMechMonotone == ~done \/ \A x \in KDays, s \in KSecs :
@@ -77,15 +83,21 @@ KTodayOffExactly == ~done \/ \A x \in KDays, s \in KSecs : (KMech(c, R, <<x, s>>
 
 \* ---- S2C generator: the run with the differences from its first reading that the law expects ----
 FirstIsBday == IsBday(c, d0)
-Emit == [hol |-> SetToSortSeq(H, <), lo |-> Lo, hi |-> Hi, pts |-> Pts,
-         f |-> [i \in DOMAIN Pts |-> PDiff(FracVal(Pts[i]), FracVal(Pts[1]))],
-         d |-> [i \in DOMAIN Pts |-> Crossed("d", 0, d0, Pts[i][1])],
-         m |-> [i \in DOMAIN Pts |-> Crossed("m", 0, d0, Pts[i][1])],
-         q |-> [i \in DOMAIN Pts |-> Crossed("q", 0, d0, Pts[i][1])],
-         y |-> [i \in DOMAIN Pts |-> Crossed("y", 0, d0, Pts[i][1])],
-         w |-> [p \in 1..7 |-> [i \in DOMAIN Pts |-> Crossed("w", p - 1, d0, Pts[i][1])]],
-         k |-> IF FirstIsBday THEN [i \in DOMAIN Pts |-> PDiff(KVal(c, R, Pts[i]), KVal(c, R, Pts[1]))] ELSE <<>>,
-         koff |-> [i \in DOMAIN Pts |-> B(KTodayOff(Pts[i][1]))],
-         b |-> IF FirstIsBday THEN [i \in DOMAIN Pts |-> SetToSortSeq({v - CountB(c, R, d0) : v \in BVals(c, R, Pts[i][1])}, <)] ELSE <<>>]
+DaySeq == [i \in DOMAIN Pts |-> Pts[i][1]]
+PerDay(F) == [i \in DOMAIN Pts |-> F[DaySeq[i]]]
+Emit == LET cd == [x \in Days |-> Crossed("d", 0, d0, x)]
+            cm == [x \in Days |-> Crossed("m", 0, d0, x)]
+            cq == [x \in Days |-> Crossed("q", 0, d0, x)]
+            cy == [x \in Days |-> Crossed("y", 0, d0, x)]
+            cw == [p \in 1..7 |-> [x \in Days |-> Crossed("w", p - 1, d0, x)]]
+            cb == [x \in Days |-> SetToSortSeq({v - CountB(c, R, d0) : v \in BVals(c, R, x)}, <)]
+            off == [x \in Days |-> B(KTodayOff(x))]
+        IN [hol |-> SetToSortSeq(H, <), lo |-> Lo, hi |-> Hi, pts |-> Pts, first |-> B(FirstIsBday),
+            f |-> [i \in DOMAIN Pts |-> PDiff(FracVal(Pts[i]), FracVal(Pts[1]))],
+            d |-> PerDay(cd), m |-> PerDay(cm), q |-> PerDay(cq), y |-> PerDay(cy),
+            w |-> [p \in 1..7 |-> PerDay(cw[p])],
+            k |-> IF FirstIsBday THEN [i \in DOMAIN Pts |-> PDiff(KVal(c, R, Pts[i]), KVal(c, R, Pts[1]))] ELSE <<>>,
+            koff |-> PerDay(off),
+            b |-> IF FirstIsBday THEN PerDay(cb) ELSE <<>>]
 EvalGen == Eval /\ PrintT(ToJson(Emit))
 =============================================================================
